@@ -494,6 +494,13 @@ pub fn generate_c20(tier: &str, seed: u64, out: &mut Out) {
                         emit(out, render_doc(d, c, &mut r0));
                     }
                 }
+                // Vcs-Git values around the ` [subpath]` / ` -b branch` syntax (F-C20-7: more than one
+                // bracket group, a group or ` -b ` left inside the URL or the branch)
+                for v in ["https://e.org/r [x] [y]", "https://e.org/r [x] -b m [y]", "https://e.org/r -b m [x] [y]",
+                    "https://e.org/r -b m -b n", "https://e.org/r [x]", "https://e.org/r -b m [x]", "https://e.org/r [x] -b m",
+                    "https://e.org/r [x y]", "https://e.org/r [] [x]", "https://e.org/r  [x]", "[x]", " [x]", "u [x] ", "u -b  m"] {
+                    emit(out, format!("Source: a\nVcs-Git: {}\n", v));
+                }
             }
             "copyright" => {
                 let h = full("debiancopyright.Header", 0, &mut r0);
@@ -571,6 +578,12 @@ pub fn generate_c20(tier: &str, seed: u64, out: &mut Out) {
                         }
                         t.push_str("Forwarded: no\n");
                         emit(out, t);
+                    }
+                }
+                if ks.kind == "buildinfo" {
+                    // Environment: variable names around '#' (F-C20-8: a '#' name that does not sort first)
+                    for env in ["#a=\"1\"\n !b=\"2\"", "#a=\"1\"\n b=\"2\"", "b=\"2\"\n a=\"#1\"", "#a=\"1\"", "A=\"1\"\n #B=\"2\"\n C=\"3\""] {
+                        emit(out, format!("Format: 1.0\nBuild-Architecture: amd64\nSource: s\nArchitecture: all\nVersion: 1.0\nEnvironment: {}\n", env));
                     }
                 }
                 if ks.kind == "package" {
